@@ -6,8 +6,8 @@ Full == IOEnv.GEN_FULL = "1"
 RECURSIVE Prod(_, _, _)
 Prod(sg, p, i) == IF i = 0 THEN {<<>>}
                   ELSE { Append(f, x) : f \in Prod(sg, p, i - 1), x \in (IF p[i] THEN ToSet(sg[i].lens) ELSE {0}) }
-Presents(sg) == { p \in [DOMAIN sg -> BOOLEAN] : /\ \A i \in DOMAIN sg : ~sg[i].opt => p[i]
-                                                  /\ \A i \in DOMAIN sg : sg[i].off < 0 /\ p[i] => p[i - 1] }   \* a dynamic segment needs its predecessor
+Presents(sg) == { p \in [DOMAIN sg -> BOOLEAN] :
+                    (\A i \in DOMAIN sg : ~sg[i].opt => p[i]) /\ (\A j \in DOMAIN sg : (sg[j].off < 0 /\ p[j]) => p[j - 1]) }   \* a dynamic segment needs its predecessor
 HasDyn(sg) == \E i \in DOMAIN sg : sg[i].off < 0
 \* requested starts: 0, every static segment start, one below (snaps up to it) and one above (snaps to the next, or is refused)
 Reqs(sg) == LET so == StaticOffsIn(sg)
